@@ -2,6 +2,7 @@ import GodiProofs.Container.Close
 import GodiProofs.Container.Instances
 import GodiProofs.Container.Drain
 import GodiProofs.Container.BuildLedger
+import GodiProofs.Container.HypSound
 /-!
 # C10 — Every disposable instance is closed exactly once, never early, never leaked (sequential)
 
@@ -168,6 +169,11 @@ theorem whole_lifecycle (beh : Beh) (descs : List Desc) (order : List Nat) (ops 
   have hr := ledger_run beh ops _ wf' is' hinit L hv
   obtain ⟨T1, d1⟩ := tidy_run beh ops _ wf' hinit T
   exact closeProvider_all_closed beh corder hord _ hr.ledger T1 (d1.trans hopen)
+
+/-- the hypotheses of the theorems above are checked on every generated registry: the driver answers
+`p hyp` with `ok` exactly when `failedHyps descs = []`, which implies all four of them -/
+theorem hypotheses_are_checked (descs : List Desc) (h : failedHyps descs = []) :
+    WF descs ∧ RegWF descs ∧ InstSingleton descs ∧ InstDistinct descs := hyps_of_check h
 
 def ex : List Desc :=
   [{ id := 0, ident := ⟨3, 0, 0⟩, life := .singleton, ctor := 1, kind := .plain, deps := [], disp := true },
